@@ -583,6 +583,9 @@ class ReckMonitor(Monitor):
             return [self.v({**sig, "kind": "heralds_or_size_differ"},
                            f"mapped {mo[:4]} original {co[:4]}")]
         mu = mo[4][: m.n_modes, : m.n_modes]
+        if not np.all(np.isfinite(mo[4])):
+            return [self.v({**sig, "kind": "mapped_unitary_not_finite"},
+                           "the mapped circuit's matrix contains nan or inf")]
         sv = np.linalg.svd(mu, compute_uv=False)
         if sv.max() > 1 + 1e-9:
             return [self.v({**sig, "kind": "not_a_contraction"},
